@@ -2,5 +2,5 @@ CONSTANTS Fixed = {"EmptyBodyPop", "IrpcEmptyOnce", "TokenStraddle", "ShiftExces
           HasAttrs = FALSE MaxNum = 99
           MaxD = 2 Cnts = {0, 2} NPre = 1 NPost = 1 Rich = FALSE Focus = TRUE
 SPECIFICATION Spec
-INVARIANTS Transparent Private Balanced NoDevWhenFixed TagsOK
+INVARIANTS Transparent Private Balanced PosAgree NoDevWhenFixed TagsOK
 CHECK_DEADLOCK FALSE
